@@ -107,6 +107,35 @@ Theorem C06_histories_order_free :
 Proof. exact histories_order_free. Qed.
 Print Assumptions C06_histories_order_free.
 
+(** [output_order_free]: the WHOLE outcome of generation + emission (the tokens, or the
+    error, or the panic) is the same; [generate_tokens r s teq] is
+    [let* m := generate r s teq in emit_module s m] *)
+Theorem C06_output_order_free :
+  forall r s1 s2 teq,
+    settings_same s1 s2 -> dreg_same (s_dreg s1) (s_dreg s2) ->
+    key_functional (dreg_all d_derives (s_dreg s1) ++ dreg_all d_derives (s_dreg s2) ++
+                    opt_list (s_compact_as s1)) /\
+    key_functional (dreg_all d_attrs (s_dreg s1) ++ dreg_all d_attrs (s_dreg s2)) ->
+    generate_tokens r s1 teq = generate_tokens r s2 teq.
+Proof. exact generate_tokens_order_free. Qed.
+Print Assumptions C06_output_order_free.
+
+(** histories whose derive / attribute calls are permutations of each other and whose
+    substitute calls are the same sub-history (same relative order): same whole outcome *)
+Theorem C06_histories_output_order_free :
+  forall r s teq ops1 ops2,
+    Permutation (filter is_derive_op ops1) (filter is_derive_op ops2) ->
+    filter (fun o => negb (is_derive_op o)) ops1 = filter (fun o => negb (is_derive_op o)) ops2 ->
+    key_functional (history_args ops1 ++ opt_list (s_compact_as s)) ->
+    generate_tokens r (with_state s (fst (run_ops ops1))) teq =
+    generate_tokens r (with_state s (fst (run_ops ops2))) teq.
+Proof.
+  exact (fun r s teq ops1 ops2 P E KF =>
+           histories_tokens_order_free r s teq ops1 ops2 P
+             (same_sub_history_same_lookups ops1 ops2 E) KF).
+Qed.
+Print Assumptions C06_histories_output_order_free.
+
 (** [dedup]: [ensure_unique] has no iteration oracle in the model - it is a function of the
     registry by construction.  What the implementation iterates in hash order are the path
     groups; the new name of index [i] depends only on the groups of the one path that
